@@ -2,20 +2,26 @@
 
 package rules
 
-// C14 driver, three streams.
+// C14 drivers: five streams.  This file holds the generators, the stub mechanisms, the observer and the streams
+// factory and ruleset; history, wiring and realfactory live in their own files (c14_history_test.go,
+// c14_wiring_test.go, c14_real_test.go) and use this file's generator and observer.
 //
 //   factory (TestVerifC14): generated default rules x rule definitions through the real
-//     NewRuleFactory / CreateRule with a stub mechanism catalogue; half of the default rules reach
+//     NewRuleFactory / CreateRule with a stub mechanism catalogue; 40 % of the default rules reach
 //     the factory as YAML through the real configuration loader (config.NewConfiguration).
+//   history (TestVerifC14History): 2-5 CreateRule calls on ONE factory, the rules derived from each
+//     other (c14Derive); one observation per call.
 //   ruleset (TestVerifC14RuleSet): the same definitions as YAML text through the real rule-set
 //     parser, rule-set processor (OnCreated, or OnUpdated over a preloaded set) and repository.
+//   wiring (TestVerifC14Wiring): rule sets through the fx Module of this package, the real file_system
+//     provider and the real rule executor.
 //   realfactory (TestVerifC14Real): definitions over a catalogue of REAL mechanisms created by
 //     the real mechanisms.NewMechanismFactory, with genuinely unknown ids and bad overrides.
 //
-// Observation (factory, ruleset): only through rule.Rule / rule.Repository — the trace of
-// mechanisms executed by Execute for 12 probe requests (3 methods x {nothing fails, the
-// authenticators fail, the authorization stage fails, the finalization stage fails}) and
-// AllowsBacktracking().  The stub mechanisms log (kind, id, override marker) into the probe
+// Observation (factory, history, ruleset, wiring): only through rule.Rule / rule.Repository /
+// rule.Executor — the trace of mechanisms executed by Execute for 12 probe requests (3 methods x
+// {nothing fails, the authenticators fail, the authorization stage fails, the finalization stage
+// fails}) and AllowsBacktracking().  The stub mechanisms log (kind, id, override marker) into the probe
 // carried by the request's context.  realfactory reads the ids of the created mechanisms.
 
 import (
